@@ -226,6 +226,31 @@ def sites(fn):
                 nd = _ndim(c, n["recv"])
                 if nd and axes and not other and len(axes) < nd and _diverges(c, m["then"]):
                     partial = (axes, nd)
+        if guarded and n["name"] in ("into_raw_vec", "into_raw_vec_and_offset") and not (root and root[0] == "local" and root[1] in inits):
+            # a layout test says nothing about the *allocation*: an owned array that was sliced (slice_move, slice_collapse,
+            # split_at on an owned array) is still in standard layout, but its raw vector also holds the elements outside of
+            # the slice - ahead of the view (offset) and behind it.  Only arrays created in this function are exempt.
+            b2, n2, idx2 = set(), set(), False
+            child2 = n
+            for a in reversed(anc):
+                k2 = a.get("k")
+                if k2 in ("Ref", "Semi") or (k2 == "Block" and not a["stmts"] and a.get("e") is child2):
+                    child2 = a
+                    continue
+                if k2 == "MethodCall" and a["recv"] is child2:
+                    n2.add(a["name"])
+                    child2 = a
+                    continue
+                if k2 in ("LetStmt", "Let") and a.get("init") is child2:
+                    for b in pat_bindings(a["pat"]):
+                        b2.add(b["local"])
+                break
+            u2, i2 = _uses_of(fn, b2) if b2 else (set(), False)
+            n2 |= u2
+            sens2 = sorted(x for x in n2 if x in SENSITIVE)
+            if sens2 or i2:
+                site.update(verdict="violation", kind="allocation-not-view", why="`%s` hands out the whole allocation of the owned array, also the elements outside of a slice_move()d view (which passes the layout test): it is used by position (%s) as if it held exactly the view's elements" % (n["name"], ", ".join(sens2 + (["indexing"] if i2 else []))))
+                continue
         if guarded:
             site.update(verdict="ok", why=guarded)
             continue
